@@ -116,3 +116,19 @@ package calc
 //@   ensures istype(update.KVPair.Key, model.TierKey) && update.KVPair.Value != nil ==> poc.tiers[cast(update.KVPair.Key, model.TierKey).Name] != nil
 //@   ensures istype(update.KVPair.Key, model.TierKey) && update.KVPair.Value != nil ==> poc.tiers[cast(update.KVPair.Key, model.TierKey).Name].Order == cast(update.KVPair.Value, *model.Tier).Order && poc.tiers[cast(update.KVPair.Key, model.TierKey).Name].Valid
 //@   ensures istype(update.KVPair.Key, model.TierKey) && update.KVPair.Value != nil ==> poc.tiers[cast(update.KVPair.Key, model.TierKey).Name].DefaultAction == cast(update.KVPair.Value, *model.Tier).DefaultAction
+
+//@ -- Same-subnet re-evaluation when this node's own CIDR changes: the IPv4 change walks the IPv4 route trie and
+//@ -- the IPv6 change walks the IPv6 route trie (a route of the other family is never re-marked by mistake,
+//@ -- and none of the right family is skipped).
+//@ func (*RouteTrie).trieForCIDR
+//@   property C43
+//@   option safety off
+//@   ensures istype(cidr, ip.V4CIDR) ==> res == r.v4T
+//@   ensures istype(cidr, ip.V6CIDR) ==> res == r.v6T
+//@   assigns nothing
+//@ func (*L3RouteResolver).onNodeUpdate
+//@   property C43
+//@   option safety off
+//@   requires c != nil && c.trie != nil
+//@   ghost at call visitAllRoutes#1: check arg1 == c.trie.v4T
+//@   ghost at call visitAllRoutes#2: check arg1 == c.trie.v6T
